@@ -31,11 +31,7 @@ func normDiags(diags hcl.Diagnostics) string {
 			subj = d.Subject.String()
 		}
 		detail := didYouMean.ReplaceAllString(d.Detail, "")
-		if i := strings.Index(detail, "panic in function implementation"); i >= 0 {
-			// go-cty turns a panic inside a function into an error whose text carries a stack
-			// trace with addresses; only the fact is compared
-			detail = detail[:i] + "panic in function implementation"
-		}
+		detail = stableDetail(detail)
 		parts = append(parts, fmt.Sprintf("%d|%s|%s|%s", d.Severity, d.Summary, detail, subj))
 	}
 	return strings.Join(parts, "\n")
